@@ -665,6 +665,25 @@ func (e *SpecEnv) call(c *ECall) Val {
 		return mkBool(fmt.Sprintf("(>= %s %s)", refTerm(v), a.T))
 	case "int", "uint32", "int64", "uint16", "uint8", "uint64":
 		return mkInt(e.eval(c.Args[0]).T)
+	case "istype":
+		// istype(T, e): the dynamic type of interface value e is the named type T
+		if len(c.Args) != 2 {
+			e.fail("istype(T, e)")
+		}
+		var ty types.Type
+		switch tn := c.Args[0].(type) {
+		case *EIdent:
+			ty = e.resolveType(tn.Name).G
+		case *ESel:
+			if id, ok := tn.X.(*EIdent); ok {
+				ty = e.x.L.findTypeQualified(e.pkg, id.Name, tn.F)
+			}
+		}
+		if ty == nil {
+			e.fail("istype: unknown type")
+		}
+		iv := e.eval(c.Args[1])
+		return mkBool(fmt.Sprintf("(= (i_tag %s) %d)", iv.T, x.ctx.typeTag(ty)))
 	case "substr":
 		// substr(s, lo, hi): the Go expression s[lo:hi] on strings
 		if len(c.Args) != 3 {
